@@ -1,6 +1,7 @@
 package repository
 
 import (
+	"io"
 	"bytes"
 	"context"
 	"fmt"
@@ -38,9 +39,15 @@ func TestVerifC38(t *testing.T) {
 		nReaders := tp.Range(1, 4)
 		nGremlin := []int{0, 0, 2, 5, 12}[tp.Choose(5)]
 		prewarm := tp.Choose(2) == 0
+		// without a gremlin everything in the cache was put there by the cache itself: then the backend
+		// may fail or cut short its downloads, and raw loads through the caching backend are compared too
+		beFaults := nGremlin == 0 && tp.Choose(2) == 0
+		beRate := []int{100, 300, 600}[tp.Choose(3)]
+		beBudget := tp.Range(1, 5)
 		r.Set("readers", nReaders)
 		r.Set("gremlin_actions", nGremlin)
 		r.Set("prewarmed", prewarm)
+		r.Set("backend_faults", beFaults)
 		simrt.Run(r.T, s, 120*time.Second, func() {
 			dir, err := os.MkdirTemp("", "verif-c38-")
 			if err != nil {
@@ -193,6 +200,41 @@ func TestVerifC38(t *testing.T) {
 					r.Fail("no-error", "error-without-interference", "%s: load of %s %v failed although nobody touched the cache or the repository: %v", who, it.kind, it.id.Str(), err)
 				}
 			}
+			// raw load through the caching backend: the same bytes as the repository, or an error
+			rawLoad := func(who string, it item) {
+				var h backend.Handle
+				switch it.kind {
+				case "snapshot":
+					h = backend.Handle{Type: backend.SnapshotFile, Name: it.id.String()}
+				case "index":
+					h = backend.Handle{Type: backend.IndexFile, Name: it.id.String()}
+				case "tree":
+					pbs := repo2.idx.Lookup(restic.BlobHandle{ID: it.id, Type: restic.TreeBlob})
+					if len(pbs) == 0 {
+						return
+					}
+					h = backend.Handle{Type: backend.PackFile, Name: pbs[0].PackID().String(), IsMetadata: true}
+				default:
+					return
+				}
+				want := store.Get(h)
+				if want == nil {
+					return
+				}
+				var got []byte
+				err := repo2.be.Load(ctx, h, 0, 0, func(rd io.Reader) error {
+					var err error
+					got, err = io.ReadAll(rd)
+					return err
+				})
+				r.Count("raw_loads", 1)
+				if err == nil && !bytes.Equal(got, want) {
+					r.Fail("same-bytes", "wrong-bytes-raw", "%s: raw load of %v through the cache returned %d bytes that differ from the %d bytes in the repository, without an error", who, h, len(got), len(want))
+				}
+			}
+			if beFaults {
+				cl.F = simbe.Faults{PartialRead: beRate, ErrBefore: beRate / 3, Budget: beBudget}
+			}
 			for ri := 0; ri < nReaders; ri++ {
 				ri := ri
 				n := tp.Range(2, 8)
@@ -208,7 +250,10 @@ func TestVerifC38(t *testing.T) {
 						mu.Lock()
 						strict := gremlins == 0
 						mu.Unlock()
-						check(fmt.Sprintf("reader %d", ri), it, got, err, strict && nGremlin == 0)
+						check(fmt.Sprintf("reader %d", ri), it, got, err, strict && nGremlin == 0 && !beFaults)
+						if nGremlin == 0 {
+							rawLoad(fmt.Sprintf("reader %d", ri), it)
+						}
 					}
 				})
 			}
@@ -294,7 +339,8 @@ func TestVerifC38(t *testing.T) {
 				r.Fail("liveness", "deadlock", "loads never finished:\n%s", s.Deadlock)
 				return
 			}
-			if nGremlin == 0 {
+			cl.F = simbe.Faults{}
+			if nGremlin == 0 && !beFaults {
 				for k, n := range downloads {
 					if n > 1 && (k[:5] == "index" || k[:8] == "snapshot") {
 						r.Fail("one-download", "downloaded-twice", "%s was downloaded %d times although nothing disturbed the cache", k, n)
